@@ -44,6 +44,16 @@ func c18run(t *testing.T, enc *json.Encoder, id int, sc c18scen) {
 	}
 	defer rb.Unlink()
 	defer rb.Close()
+	// the reader is an object of its own that attaches to the regions (as dastard's Abaco ring source does); it stays
+	// the SAME object when the writer goes away and the ring is created again (Close, then Open)
+	rd, err := NewRingBuffer(name+"_raw", name+"_desc")
+	if err != nil {
+		t.Fatalf("NewRingBuffer: %v", err)
+	}
+	if err = rd.Open(); err != nil {
+		t.Fatalf("Open: %v", err)
+	}
+	defer rd.Close()
 	enc.Encode(map[string]any{"ev": "Create", "scen": id, "cap": sc.Cap})
 	acc, off := 0, 0
 	for _, op := range sc.Ops {
@@ -81,18 +91,19 @@ func c18run(t *testing.T, enc *json.Encoder, id int, sc c18scen) {
 				acc += k
 				enc.Encode(map[string]any{"ev": "XWrite", "n": op.N, "ret": k})
 			case "Read":
-				d, _ := rb.Read(op.N)
+				d, _ := rd.Read(op.N)
 				enc.Encode(map[string]any{"ev": "Read", "n": op.N, "data": c18ints(d)})
 			case "ReadAll":
-				d, _ := rb.ReadAll()
+				d, _ := rd.ReadAll()
 				enc.Encode(map[string]any{"ev": "ReadAll", "n": 0, "data": c18ints(d)})
 			case "ReadMult":
-				d, e := rb.ReadMultipleOf(op.N)
+				d, e := rd.ReadMultipleOf(op.N)
 				enc.Encode(map[string]any{"ev": "ReadMult", "n": op.N, "data": c18ints(d), "err": e != nil})
 			case "Recreate":
 				// the writer goes away without Unlink (its regions stay behind) and a new writer calls Create on the same
 				// names: whatever the regions hold, the new ring starts empty.  Written bytes carry a new offset, so that
 				// stale bytes are told from new ones.
+				rd.Close() // the reader detaches ...
 				rb.Close()
 				rb2, err := NewRingBuffer(name+"_raw", name+"_desc")
 				if err != nil {
@@ -102,19 +113,22 @@ func c18run(t *testing.T, enc *json.Encoder, id int, sc c18scen) {
 					t.Fatalf("Create: %v", err)
 				}
 				*rb = *rb2 // (the deferred Close / Unlink act on the current ring)
+				if err = rd.Open(); err != nil { // ... and the same reader object attaches to the new ring
+					t.Fatalf("Open after re-create: %v", err)
+				}
 				acc = 0
 				off += 97
-				enc.Encode(map[string]any{"ev": "Recreate", "cap": op.N, "off": off % 251, "readable": rb.BytesReadable(), "writeable": rb.BytesWriteable()})
+				enc.Encode(map[string]any{"ev": "Recreate", "cap": op.N, "off": off % 251, "readable": rd.BytesReadable(), "writeable": rb.BytesWriteable()})
 			case "Discard":
-				rb.DiscardStride(uint64(op.N))
-				enc.Encode(map[string]any{"ev": "Discard", "n": op.N, "rp": int(rb.desc.readPointer), "wp": int(rb.desc.writePointer)})
+				rd.DiscardStride(uint64(op.N))
+				enc.Encode(map[string]any{"ev": "Discard", "n": op.N, "rp": int(rd.desc.readPointer), "wp": int(rd.desc.writePointer)})
 			}
 		}()
 	}
 	// final drain: everything accepted and not discarded must come out
 	all := []int{}
 	for i := 0; i < 4; i++ {
-		d, _ := rb.ReadAll()
+		d, _ := rd.ReadAll()
 		all = append(all, c18ints(d)...)
 	}
 	enc.Encode(map[string]any{"ev": "Drain", "n": 0, "data": all})
